@@ -261,7 +261,11 @@ func (m *Machine) callValue(s *State, f *Frame, x *ssa.Call, cc *ssa.CallCommon,
 				return r
 			}
 		}
-		if m.tolerant { // shallow init: never enter callees
+		if m.tolerant { // shallow init: only helpers of the module under test are entered
+			if callee.Pkg != nil && strings.HasPrefix(callee.Pkg.Pkg.Path(), "github.com/oxia-db/oxia") && callee.Blocks != nil {
+				m.pushFrame(s, callee, args, nil, dest)
+				return nil
+			}
 			setRes(Opaque{"shallow-init call " + name})
 			return nil
 		}
@@ -457,9 +461,44 @@ func (m *Machine) intrinsic(s *State, f *Frame, x *ssa.Call, name string, callee
 		f.env[x] = v
 		s.pc = append(s.pc, c.Cmp("bvsge", sc(v), c.BV(0, 64)), c.Cmp("bvslt", sc(v), sc(args[0])))
 		return nil, true
-	case strings.HasPrefix(name, "fmt.") || name == "github.com/pkg/errors.Errorf":
-		if m.fmtIntrinsic(s, f, x, name, args) {
+	case strings.HasPrefix(name, "strings.") || strings.HasPrefix(name, "net/url."):
+		if m.nativeStringFn(s, f, x, name, args) {
 			return nil, true
+		}
+	case short == "vSeqPart":
+		// vSeqPart(key, prefix string, idx int) uint64: idx-th numeric suffix of a generated sequence key
+		key := args[0].(StrV)
+		idx := int(sc(args[2]).cv)
+		if ss, ok := key.box.(SegStr); ok {
+			k := 0
+			for _, p := range ss.parts {
+				if p.num != nil {
+					if k == idx {
+						f.env[x] = Sc{p.num}
+						return nil, true
+					}
+					k++
+				}
+			}
+			s.fail("unsupported", "vSeqPart index")
+			return nil, true
+		}
+		ks, ok1 := m.toGo(s, key, types.Typ[types.String])
+		ps, ok2 := m.toGo(s, args[1], types.Typ[types.String])
+		if !ok1 || !ok2 {
+			s.fail("unsupported", "vSeqPart on symbolic string")
+			return nil, true
+		}
+		parts := strings.Split(strings.TrimPrefix(ks.(string), ps.(string)), "-")[1:]
+		var n uint64
+		if idx < len(parts) {
+			fmt.Sscanf(parts[idx], "%d", &n)
+		}
+		f.env[x] = Sc{c.BV(n, 64)}
+		return nil, true
+	case strings.HasPrefix(name, "fmt.") || name == "github.com/pkg/errors.Errorf":
+		if succ, ok := m.fmtIntrinsic(s, f, x, name, args); ok {
+			return succ, true
 		}
 	case short == "vGo":
 		fv := args[1].(FuncV)
